@@ -3,6 +3,7 @@ CONSTANTS
   MaxOps = 4
   Groups = {"listns", "tree", "arr", "ds"}
   Big = FALSE
+  Focus = ""
   Wide = FALSE
   ShipDsAdd = FALSE
   ShipMatPartial = FALSE
